@@ -466,6 +466,52 @@ fn sem_barger_holds_unfair() {
     sem_barger_holds(false)
 }
 
+/// Unfair mutex: the waiter has been notified, a try_lock() barged in; now the waiter is polled
+/// again on one thread (it has to go back to waiting) while the barger's guard is dropped on
+/// another. In the end the mutex is free: the waiter has locked it, or holds a wake-up through the
+/// waker of that last poll.
+fn mutex_requeue_vs_unlock() {
+    let m = Arc::new(GenericMutex::<LoomRaw, Tracked>::new(Tracked::new(), false));
+    let _ = m.is_locked();
+    let mr: &'static GenericMutex<LoomRaw, Tracked> = unsafe { &*(&*m as *const GenericMutex<LoomRaw, Tracked>) };
+    let g0 = mr.try_lock().unwrap();
+    let mut f = Box::pin(mr.lock());
+    let (w1, c1) = counting_waker();
+    assert!(f.as_mut().poll(&mut Context::from_waker(&w1)).is_pending());
+    drop(g0);
+    assert_eq!(c1.load(Ordering::SeqCst), 1, "C03: unlock must wake the pending lock future");
+    let barger = mr.try_lock().expect("C02: unfair try_lock on a free mutex");
+    let fb = SendBox(Box::new(f));
+    let keep = m.clone();
+    let h = spawn(move || {
+        let mut f = *fb.0;
+        let (w2, c2) = counting_waker();
+        let got = match f.as_mut().poll(&mut Context::from_waker(&w2)) {
+            Poll::Ready(g) => {
+                g.incr();
+                drop(g);
+                true
+            }
+            Poll::Pending => false,
+        };
+        let _ = &keep;
+        (SendBox(Box::new(f)), w2, c2, got)
+    });
+    barger.incr();
+    drop(barger);
+    let (fb, w2, c2, got) = h.join().unwrap();
+    let mut f = *fb.0;
+    if !got {
+        assert!(c2.load(Ordering::SeqCst) > 0, "C03: the mutex is free and a lock future is pending, but it has not been woken since its last poll");
+        match f.as_mut().poll(&mut Context::from_waker(&w2)) {
+            Poll::Ready(g) => drop(g),
+            Poll::Pending => panic!("C03: the mutex is free but the woken lock future stays pending"),
+        }
+    }
+    drop(f);
+    epilogue_mutex(&m);
+}
+
 fn sem_notified_drop_contended(fair: bool) {
     let s = Arc::new(GenericSemaphore::<LoomRaw>::new(fair, 0));
     let _ = s.permits();
@@ -2579,6 +2625,7 @@ const SCENARIOS: &[(&str, &str, Scenario)] = &[
     ("mutex_barger_holds_unfair", "wk:C02,C03", mutex_barger_holds_unfair),
     ("sem_barger_holds_fair", "wk:C05,C06", sem_barger_holds_fair),
     ("sem_barger_holds_unfair", "wk:C05,C06", sem_barger_holds_unfair),
+    ("mutex_requeue_vs_unlock", "wk:C02,C03", mutex_requeue_vs_unlock),
     ("mutex_fair_order", "C04", mutex_fair_order),
     ("sem_fair_order", "C07", sem_fair_order),
     ("event_set_vs_reset", "wk:C14", event_set_vs_reset),
